@@ -540,6 +540,14 @@ func (p *Producer) GenTxs() []*transaction.Transaction {
 			tx = p.opNotaryAssisted()
 		case 15:
 			tx = p.opOracle()
+			if tx != nil && r.Intn(2) == 0 {
+				// a burst of requests, to be answered together later
+				for k := 0; k < 2; k++ {
+					if t2 := p.opOracle(); t2 != nil {
+						txs = append(txs, t2)
+					}
+				}
+			}
 		case 16:
 			tx = p.opLedger()
 		case 17:
@@ -551,7 +559,13 @@ func (p *Producer) GenTxs() []*transaction.Transaction {
 	}
 	// pending oracle requests are answered soon (see oracleResponse on why)
 	if w.Oracle > 0 && len(p.oracleReqs) > 0 && r.Intn(2) == 0 {
-		if tx := p.oracleResponse(); tx != nil {
+		// up to three answers in one block: PostPersist then rewards several
+		// designated nodes at once
+		for k := 0; k < 3 && len(p.oracleReqs) > 0; k++ {
+			tx := p.oracleResponse()
+			if tx == nil {
+				break
+			}
 			txs = append(txs, tx)
 		}
 	}
